@@ -19,16 +19,16 @@ import (
 // world is one honest session pair plus the pool of every distinct message
 // either side has produced. Side 0 is the initiator, side 1 the responder.
 type world struct {
-	s        [2]*p2pke.Session
-	pool     [][]byte
-	poolFrom []int
-	inPool   map[string]bool
-	sent     [2]map[string]bool // plaintexts given to Send by each side
-	got      [2]map[string]bool // plaintexts delivered to each side
-	sends    [2]int
-	ready    [2]bool
-	trace    []string
-	faults   int // drops/dups/reorders/reflections observed (for non-triviality)
+	s         [2]*p2pke.Session
+	pool      [][]byte
+	poolFrom  []int
+	inPool    map[string]bool
+	sent      [2]map[string]bool // plaintexts given to Send by each side
+	got       [2]map[string]bool // plaintexts delivered to each side
+	sends     [2]int
+	ready     [2]bool
+	trace     []string
+	faults    int // drops/dups/reorders/reflections observed (for non-triviality)
 	delivered map[string]int
 }
 
